@@ -24,9 +24,8 @@ RULE = ("cases = histories of 4-20 commands of the C06 generator plus remove (re
 TRUSTED = ["fork-per-command runner and tree hash of harness/lib_db.py (every file and directory name under each "
            "stack, cache files `*.pickleDB*` excluded)",
            "the AST walk of harness/c15_guardmap.py recognises write calls by the name of the callee"]
-ASSUMPTIONS = ["external files (-L) and interned table files are not generated: their writes are covered by the guard "
-               "map only (os.makedirs / utils.copyfile under `else of: if self.noaction`); the temporary file of an "
-               "interned table lives outside the stacks",
+ASSUMPTIONS = ["interned table files (tablefile given as a stream) are not generated: their writes are covered by the guard "
+               "map only; the temporary file of an interned table lives outside the stacks",
                "remove: table files declare no dependencies, so the recursive collection is the product itself"]
 
 WORKERS = c06.WORKERS
@@ -57,6 +56,8 @@ def check_case(ctx, case, steps, msteps):
             ctx.fail("reader_total", sub, impl_obs, model_obs, note="fresh reader raised %s" % (rec["db"]["error"],))
             return
         c06.oracle_i(ctx, i, sub, rec, impl_obs, model_obs)
+        if cmd.get("ext"):
+            ctx.hist("%s with external files/%s" % ("dry run" if cmd.get("noaction") else "declare", rec["out"]))
         if cmd.get("noaction"):
             ctx.hist("dry %s/%s" % (c06.kind_of(cmd), rec["out"]))
             if rec.get("hash_same") is False:
